@@ -14,6 +14,15 @@ def build_designspace(family, lib="ufoLib2"):
     A master with "layer" set shares the font object of master index "of" (sparse layer master)."""
     ds = DesignSpaceDocument()
     for a in family["axes"]:
+        if a.get("values") is not None:
+            # a discrete axis: each of its values is an interpolable sub-space of its own
+            from fontTools.designspaceLib import DiscreteAxisDescriptor
+
+            ax = DiscreteAxisDescriptor()
+            ax.name, ax.tag = a["name"], a["tag"]
+            ax.values, ax.default = list(a["values"]), a["default"]
+            ds.addAxis(ax)
+            continue
         ax = AxisDescriptor()
         ax.name, ax.tag = a["name"], a["tag"]
         ax.minimum, ax.default, ax.maximum = a["min"], a["default"], a["max"]
@@ -57,6 +66,8 @@ def build_designspace(family, lib="ufoLib2"):
         subs = []
         for a in family["axes"]:
             sp = (vf.get("subsets") or {}).get(a["name"])
+            if sp is None and a.get("values") is not None:
+                continue        # (a discrete axis left out of the subsets: the variable font sits at the axis default)
             if sp is None:
                 subs.append(RangeAxisSubsetDescriptor(name=a["name"]))
             elif "value" in sp:
